@@ -171,7 +171,7 @@ def gen_raire(rng):
     ncon = rng.randint(1, 3) if rng.random() < 0.9 else rng.choice((10, 12, 25))
     cons = [f"{100 + j}" for j in range(ncon)]
     cands = {c: [str(rng.randint(1, 9) * 10 + k) for k in range(rng.randint(2, 5))] for c in cons}
-    small = ncon <= 3 and rng.random() < 0.25
+    small = (ncon <= 3 and rng.random() < 0.25) or (ncon >= 10 and rng.random() < 0.6)   # (a dozen contests numbered 1..12 too)
     if small:
         # contests, candidates and ballots numbered from 1, each in its own name space: the same token ("1", "2") names a
         # contest, a candidate and a ballot
@@ -195,7 +195,7 @@ def gen_raire(rng):
     rows = [[str(ncon)]]
     for c in cons:
         rows.append(["Contest", c, str(len(cands[c]))] + cands[c] + ["winner", cands[c][0]])
-    nb = rng.randint(0, 12)
+    nb = rng.randint(0, 12) if ncon < 10 else rng.randint(20, 40)   # (with contests 1..12 and ballots 1..40, "1"+"23" reads like "12"+"3")
     bids = [str(j + 1) for j in range(nb)] if small else [f"1_{rng.randint(1, 3)}_{j}" for j in range(nb)]
     lines = []
     for b in bids:
